@@ -9412,6 +9412,19 @@ let api_mk_move s d p =
 let api_search k passes fuel root =
   search k [] passes fuel root
 
+(** val tf_rep : nat -> board -> threefold **)
+
+let rec tf_rep reps b =
+  match reps with
+  | O -> []
+  | S n0 -> fst (tf_add (tf_rep n0 b) b)
+
+(** val api_search_tf :
+    n -> nat -> nat -> nat -> board -> ((move option * score) * n) * bool **)
+
+let api_search_tf k reps passes fuel root =
+  search k (tf_rep reps root) passes fuel root
+
 (** val api_nat_of_N : n -> nat **)
 
 let api_nat_of_N =
